@@ -71,6 +71,8 @@ structure Crs where
   towgs : Option (List Dec)
   unit : UnitK
   datum : DatumK
+  dname : Nat := 0   -- which name a `custom` datum carries in WKT (see `customDatumNames`): names that come
+                     -- close to an entry of the library's alias/definition tables but must NOT be taken for it
 deriving Repr, DecidableEq, Inhabited
 
 /-- spelling choices that do not change the meaning -/
@@ -81,6 +83,13 @@ structure Style where
   axis : Bool := false      -- AXIS clauses
   k0key : Bool := false     -- PROJ.4 `+k_0=` instead of `+k=`
   title : Bool := false     -- PROJ.4 `+title=`
+  -- clause ORDER inside the WKT (every order the grammar-agnostic parser accepts must mean the same)
+  unitPos : Nat := 0        -- linear UNIT: 0 last (ESRI / current GDAL), 1 right after GEOGCS and before PROJECTION and
+                            -- the PARAMETERs (EPSG registry / older GDAL), 2 between the PARAMETERs
+  projLast : Bool := false  -- PROJECTION after the PARAMETERs
+  geogLast : Bool := false  -- GEOGCS after PROJECTION and the PARAMETERs
+  towgsFirst : Bool := false -- TOWGS84 before SPHEROID inside DATUM
+  authFirst : Bool := false -- AUTHORITY right after the name (PROJCS, GEOGCS, DATUM) instead of last
 deriving Repr, DecidableEq, Inhabited
 
 def usFootDecQ : Dec := ⟨3048006096012192, 16⟩
@@ -155,9 +164,17 @@ end
 def authArg (st : Style) (code : String) : List WArg :=
   if st.auth then [.sub "AUTHORITY" [.q "EPSG", .q code]] else []
 
+/-- WKT names (OGC, ESRI) of datums the library does not know: they keep their own TOWGS84 -/
+def customDatumNames : List (String × String) :=
+  [("Custom_Datum_1999", "D_Custom_1999"), ("WGS_1972", "D_WGS_1972"), ("WGS_1966", "D_WGS_1966"),
+   ("NAD83_High_Accuracy_Reference_Network", "D_North_American_1983_HARN"), ("New_Zealand_Geodetic_Datum_2000", "D_NZGD_2000"),
+   ("OSGB_1970_SN", "D_OSGB_1970_SN"), ("North_American_Datum_1927", "D_North_American_1927"), ("S_JTSK_05", "D_S_JTSK_05"),
+   ("Potsdam_Datum_83", "D_Potsdam_83"), ("WGS_1984_Variant", "D_WGS_1984_Variant"), ("Nouvelle_Triangulation_Francaise", "D_NTF")]
+
 def wktDatumName (c : Crs) (st : Style) : String :=
   match c.datum, st.esri with
-  | .custom, false => "Custom_Datum_1999" | .custom, true => "D_Custom_1999"
+  | .custom, false => (customDatumNames.getD c.dname ("Custom_Datum_1999", "")).1
+  | .custom, true => (customDatumNames.getD c.dname ("", "D_Custom_1999")).2
   | .wgs84, false => "WGS_1984" | .wgs84, true => "D_WGS_1984"
   | .nad83, false => "North_American_Datum_1983" | .nad83, true => "D_North_American_1983"
 
@@ -172,12 +189,13 @@ def wktGeog (c : Crs) (st : Style) (top : Bool) : WArg :=
   let tw : List WArg := match c.datum, c.towgs with
     | .custom, some ds => [.sub "TOWGS84" (ds.map .num)]
     | _, _ => []
-  .sub "GEOGCS" ([.q (wktGeogName c st),
-    .sub "DATUM" ([.q (wktDatumName c st), sph] ++ tw ++ authArg st "6269"),
+  let au (code : String) (body : List WArg) : List WArg :=
+    if st.authFirst then authArg st code ++ body else body ++ authArg st code
+  .sub "GEOGCS" ([.q (wktGeogName c st)] ++ au "4269" ([
+    .sub "DATUM" ([.q (wktDatumName c st)] ++ au "6269" (if st.towgsFirst then tw ++ [sph] else [sph] ++ tw)),
     .sub "PRIMEM" ([.q "Greenwich", .num ⟨0, if st.esri then 1 else 0⟩] ++ authArg st "8901"),
     .sub "UNIT" ([.q (if st.esri then "Degree" else "degree"), .num degDec] ++ authArg st "9122")]
-    ++ (if st.axis && top then [.sub "AXIS" [.q "Latitude", .bare "NORTH"], .sub "AXIS" [.q "Longitude", .bare "EAST"]] else [])
-    ++ authArg st "4269")
+    ++ (if st.axis && top then [.sub "AXIS" [.q "Latitude", .bare "NORTH"], .sub "AXIS" [.q "Longitude", .bare "EAST"]] else [])))
 
 def wktProjName (k : Kind) (esri : Bool) : String :=
   match k, esri with
@@ -216,11 +234,18 @@ def wktUnit (c : Crs) (st : Style) : WArg :=
 
 def toWktTree (c : Crs) (st : Style) : WArg :=
   if c.kind = .geog then wktGeog c st true else
-  .sub "PROJCS" ([.q (if st.esri then "Sample_Projected_1999" else "Sample / Projected 1999"), wktGeog c st false,
-    .sub "PROJECTION" ([.q (wktProjName c.kind st.esri)] ++ (if st.esri then [] else authArg st "9802"))]
-    ++ wktParams c st ++ [wktUnit c st]
-    ++ (if st.axis then [.sub "AXIS" [.q "X", .bare "EAST"], .sub "AXIS" [.q "Y", .bare "NORTH"]] else [])
-    ++ authArg st "26910")
+  let geog := wktGeog c st false
+  let proj : WArg := .sub "PROJECTION" ([.q (wktProjName c.kind st.esri)] ++ (if st.esri then [] else authArg st "9802"))
+  let unit := wktUnit c st
+  let ps := wktParams c st
+  let ps := if st.unitPos = 2 then ps.take 2 ++ [unit] ++ ps.drop 2 else ps
+  let core := if st.projLast then ps ++ [proj] else [proj] ++ ps
+  let core := if st.unitPos = 1 then [unit] ++ core else core
+  let core := if st.geogLast then core ++ [geog] else [geog] ++ core
+  let core := if st.unitPos = 0 then core ++ [unit] else core
+  let core := core ++ (if st.axis then [.sub "AXIS" [.q "X", .bare "EAST"], .sub "AXIS" [.q "Y", .bare "NORTH"]] else [])
+  .sub "PROJCS" ([.q (if st.esri then "Sample_Projected_1999" else "Sample / Projected 1999")] ++
+    (if st.authFirst then authArg st "26910" ++ core else core ++ authArg st "26910"))
 
 def toWkt (c : Crs) (st : Style) : Str :=
   renderArg (if st.spaces then [',', ' '] else [',']) (toWktTree c st)
@@ -369,7 +394,12 @@ def styleEsriBusy : Style := { esri := true, spaces := true, axis := true, k0key
 /-- the finite family checked by the kernel in `C20_parse_agree_partial`: every kind with every
 unit, every datum flavour and every spelling switch at least once -/
 def family (k : Kind) : List (Crs × Style) :=
-  [(sample k .metre 0, styleOgc), (sample k .foot 1, styleEsri), (sample k .usFootDec 2, styleBusy), (sample k .metre 3, styleEsriBusy)]
+  [({ sample k .metre 0 with dname := 1 }, { styleOgc with geogLast := true, towgsFirst := true }),   -- DATUM["WGS_1972",TOWGS84,SPHEROID], GEOGCS last
+   (sample k .foot 1, { styleEsri with unitPos := 1 }),                        -- UNIT["Foot"] BEFORE PROJECTION and the PARAMETERs
+   (sample k .usFootDec 2, { styleBusy with unitPos := 2, authFirst := true }), -- UNIT between the PARAMETERs, AUTHORITY first
+   (sample k .metre 3, { styleEsriBusy with projLast := true }),                -- PROJECTION after the PARAMETERs
+   ({ sample k .usFootDec 1 with dname := 9 }, { styleOgc with unitPos := 1, projLast := true, towgsFirst := true, auth := true }),
+   (sample k .foot 0, styleOgc)]                                               -- the plain layout (UNIT last)
 
 /-! ## tolerances for the compiled code (numeric part of the property) -/
 
